@@ -934,6 +934,9 @@ func main() {
 	if o.Shard == 4%o.Shards && core.Want("moderation-vs-group-switch") {
 		res.AddSub(seqx.Explore(switchConfig(), res))
 	}
+	if o.Shard == 5%o.Shards && core.Want("moderation-vs-group-switch") {
+		res.AddSub(seqx.Explore(dupConfig(), res))
+	}
 	if o.Shard == 3%o.Shards && core.Want("token-login") {
 		res.AddSub(tokenAliasCheck(res))
 	}
@@ -972,9 +975,13 @@ func replay(path string) {
 		os.Exit(2)
 	}
 	r := a.Replay
-	if r.Config == switchConfig().Name {
+	if r.Config == switchConfig().Name || r.Config == dupConfig().Name {
 		defer sig.Cleanup()
 		w := swFresh().(*sworld)
+		if r.Config == dupConfig().Name {
+			w.Close()
+			w = dupConfig().Fresh().(*sworld)
+		}
 		for _, o := range r.Ops {
 			v := w.Apply(o)
 			fmt.Printf("  %-12s -> in=%q held=%v justified=%v pending=%v signalled=%v\n", o.Kind, w.in, w.w.Clients[0].V.Permissions(), keys(w.want), w.pending, w.w.Clients[0].V.Signalled())
